@@ -45,6 +45,9 @@ type Config struct {
 	StickyTTL            time.Duration
 	EchoHeaders          map[string]string
 	ExternalStorage      bool
+	// ExternalFetchOnly: an external-location configuration without a storage
+	// backend (the server resolves pointers it is sent, but cannot externalize)
+	ExternalFetchOnly bool
 	ExternalThreshold    int64
 	OAuthMetadata        bool
 	WithAuth             bool
@@ -329,6 +332,9 @@ func New(sim *simkern.Sim, cfg Config) (*World, error) {
 	if cfg.ExternalStorage {
 		ec := vgirpc.DefaultExternalLocationConfig(&store{w})
 		ec.ExternalizeThresholdBytes = cfg.ExternalThreshold
+		srv.SetExternalLocation(ec)
+	} else if cfg.ExternalFetchOnly {
+		ec := vgirpc.DefaultExternalLocationConfig(nil)
 		srv.SetExternalLocation(ec)
 	}
 	h, err := vgirpc.NewHttpServerWithKey(srv, []byte("0123456789abcdef0123456789abcdef"))
